@@ -10,6 +10,7 @@
    Extra SyncFile / SyncDir events are always accepted.
 
    What the guards encode (file:function):
+   * oracle.go newCommitTs: commit timestamps increase from request to request (normal mode).
    * db.go writeRequests/writeToLSM, value.go valueLog.write: a request's values are stored in
      the current vlog file before its WAL records (a WAL record's value pointer must point at an
      existing vlog record; with SyncWrites at a record inside the vlog's synced image: write's
@@ -146,7 +147,8 @@ Definition pstep (c : cfg) (st : pstate) (pe : pevent) : option pstate :=
           && forallb (ptr_ok c s) cells
           && memf w (dir s) && sized s w
           && imp (sync_writes c) (log_synced s w)
-          && imp (fix_dirsync c) (memf w (dur s)))
+          && imp (fix_dirsync c) (memf w (dur s))
+          && forallb (fun u => unit_ts (snd u) <? unit_ts cells) (units st))
          (mkP s (units st) cells (unit_items cells) (acked st) (walcur st) (vlogcur st)
               (nflushed st) (nflushed_s st) (live st) (live_s st) (usedtabs st))
   | PAck =>
